@@ -458,8 +458,11 @@ func checkViewsDistMV(t *vlib.T) {
 		}
 		// CovarianceMatrix into an empty, a sized and a view destination
 		covs := map[string]func(dst *mat.SymDense){
-			"Normal":    func(dst *mat.SymDense) { d, _ := distmv.NewNormal(c.mu, c.sigma.sym(), nil); d.CovarianceMatrix(dst) },
-			"StudentsT": func(dst *mat.SymDense) { d, _ := distmv.NewStudentsT(c.mu, c.sigma.sym(), 5, nil); d.CovarianceMatrix(dst) },
+			"Normal": func(dst *mat.SymDense) { d, _ := distmv.NewNormal(c.mu, c.sigma.sym(), nil); d.CovarianceMatrix(dst) },
+			"StudentsT": func(dst *mat.SymDense) {
+				d, _ := distmv.NewStudentsT(c.mu, c.sigma.sym(), 5, nil)
+				d.CovarianceMatrix(dst)
+			},
 			"Dirichlet": func(dst *mat.SymDense) {
 				distmv.NewDirichlet([]float64{2.5, 1, 5, 0.7}[:max(n, 2)], nil).CovarianceMatrix(dst)
 			},
@@ -494,10 +497,12 @@ func checkViewsDistMV(t *vlib.T) {
 	bnds := []r1.Interval{{Min: -3, Max: 2}, {Min: 2, Max: 102}, {Min: 0, Max: 1e-2}}
 	idx := viewAnswers(1, 16)
 	uf := map[string]func(dst []float64) []float64{
-		"Uniform.Rand":     func(dst []float64) []float64 { return distmv.NewUniform(bnds, newScript(viewK, idx...)).Rand(dst) },
-		"Uniform.Mean":     func(dst []float64) []float64 { return distmv.NewUniform(bnds, nil).Mean(dst) },
-		"Uniform.CDF":      func(dst []float64) []float64 { return distmv.NewUniform(bnds, nil).CDF(dst, []float64{0, 50, 5e-3}) },
-		"Uniform.Quantile": func(dst []float64) []float64 { return distmv.NewUniform(bnds, nil).Quantile(dst, []float64{0.1, 0.5, 1}) },
+		"Uniform.Rand": func(dst []float64) []float64 { return distmv.NewUniform(bnds, newScript(viewK, idx...)).Rand(dst) },
+		"Uniform.Mean": func(dst []float64) []float64 { return distmv.NewUniform(bnds, nil).Mean(dst) },
+		"Uniform.CDF":  func(dst []float64) []float64 { return distmv.NewUniform(bnds, nil).CDF(dst, []float64{0, 50, 5e-3}) },
+		"Uniform.Quantile": func(dst []float64) []float64 {
+			return distmv.NewUniform(bnds, nil).Quantile(dst, []float64{0.1, 0.5, 1})
+		},
 		"Dirichlet.Rand": func(dst []float64) []float64 {
 			return distmv.NewDirichlet([]float64{2.5, 1, 0.5}, newScript(viewK, idx...)).Rand(dst)
 		},
